@@ -158,6 +158,8 @@ def value_problems(type_name, v):
             out.append('definite-date-timex-differs-from-value')
         if val is not None and tx and ty == 'time' and re.fullmatch(r'T\d{2}(:\d{2}(:\d{2})?)?', tx):
             t = tx[1:] + (':00' if len(tx) == 6 else ':00:00' if len(tx) == 3 else '')
+            if t == '24:00:00':      # ISO 8601 end-of-day midnight is the clock reading 00:00:00
+                t = '00:00:00'
             if t != val:
                 out.append('definite-time-timex-differs-from-value')
         if val is not None and tx and ty == 'datetime' and re.fullmatch(D_RE + r'T\d{2}(:\d{2}(:\d{2})?)?', tx):
@@ -272,6 +274,20 @@ EDGE_CONTEXTS = ['{}', 'x {}', '{} y', 'call  {}  now', 'tel:\t{}', '{}\n', '\n{
 FILLERS = [' and then ', ' , also ', ' ; we saw ', ' but not ', ' . Later ', ' while ']
 
 
+# culture -> (range templates over {a} {b} and a date expression {d}, date expressions incl. none, am/pm style markers for one endpoint)
+HOUR_TEMPLATES = {
+    'en-us': (['from {a} to {b} {d}', 'between {a} and {b} {d}', '{d} from {a} to {b}', '{d} {a}-{b}', '{d} {a} to {b}'],
+              ['', 'tomorrow', 'on monday', 'on 1/1/2015', 'next friday', 'on March 3rd'], ['{}pm', '{} am', "{} o'clock", '']),
+    'es-es': (['entre las {a} y las {b} {d}', 'de {a} a {b} {d}', '{d} de las {a} a las {b}'], ['', 'del lunes', 'mañana', 'el 3 de marzo'], ['{}pm', '{} de la tarde', '']),
+    'it-it': (['dalle {a} alle {b} {d}', 'tra le {a} e le {b} {d}', '{d} dalle {a} alle {b}'], ['', 'domani', 'lunedì', 'il 3 marzo'], ['{}pm', '{} di sera', '']),
+    'fr-fr': (['de {a}h à {b}h {d}', 'entre {a}h et {b}h {d}', '{d} de {a} à {b} heures'], ['', 'demain', 'lundi', 'le 3 mars'], ['{}pm', '']),
+    'pt-br': (['das {a} às {b} {d}', 'entre as {a} e as {b} {d}', '{d} das {a} às {b}'], ['', 'amanhã', 'segunda-feira', 'em 3 de março'], ['{}pm', '{} da tarde', '']),
+    'de-de': (['von {a} bis {b} Uhr {d}', '{d} von {a} bis {b} Uhr', '{d} zwischen {a} und {b} Uhr'], ['', 'morgen', 'am Montag', 'am 3. März'], ['{}pm', '']),
+    'nl-nl': (['van {a} tot {b} {d}', '{d} van {a} tot {b} uur', 'tussen {a} en {b} uur {d}'], ['', 'morgen', 'op maandag', 'op 3 maart'], ['{}pm', "{} 's middags", '']),
+    'zh-cn': (['{d}{a}点到{b}点', '{d}从{a}点到{b}点', '{d}{a}点至{b}点'], ['', '明天', '周一', '3月3日', '明天下午', '今晚'], ['下午{}', '']),
+}
+
+
 def plan(pid, tier, seed):
     jobs = []
     for cu in CULTURES:
@@ -296,6 +312,8 @@ def plan(pid, tier, seed):
     if pid == 'C11':
         gens = [g for g in gens if g in ('c06', 'c07', 'c08', 'c09', 'c10')] if tier == 'thorough' else ['c06', 'c07']
         jobs.append({'name': 'invalid-dates', 'kind': 'invalid', 'weight': 2})
+        for cu in HOUR_TEMPLATES:
+            jobs.append({'name': 'hourgrid-%s' % cu, 'kind': 'hourgrid', 'culture': cu, 'weight': 2})
     for g in gens:
         try:
             mod = importlib.import_module('rtmon.checkers.' + g)
@@ -499,6 +517,34 @@ def run(pid, job, ctx):
             mm = dtlib.dt_model(cu)
             for q in qs:
                 mm.parse(q, dtlib.rand_ref(r))
+    elif kind == 'hourgrid':
+        # ranges of two clock hours, every (begin, end) pair 0..24 incl. end < begin, with and without am/pm markers and minutes,
+        # alone and attached to a date expression: the hour arithmetic (am/pm reading, +12, wrap over midnight) runs on every pair
+        cu = job['culture']
+        m = dtlib.dt_model(cu)
+        r = ctx.rng('hourgrid:' + cu)
+        tpl, dates, marks = HOUR_TEMPLATES[cu]
+        hours = list(range(0, 25))
+        for a in hours:
+            for b in hours:
+                if ctx.tier == 'quick' and (a + 2 * b) % 3 and not (b < a <= 12):
+                    continue
+                for t in tpl:
+                    variants = [(str(a), str(b))]
+                    mk = r.choice(marks)
+                    if mk:
+                        variants.append((str(a), mk.format(b)))
+                        if ctx.tier == 'thorough':
+                            variants.append((mk.format(a), mk.format(b)))
+                    if ctx.tier == 'thorough' or r.random() < 0.2:
+                        variants.append(('%d:%02d' % (a, r.choice([0, 15, 30, 59])), str(b)))
+                    for va, vb in variants:
+                        d = r.choice(dates)
+                        q = ' '.join(t.format(a=va, b=vb, d=d).split())
+                        try:
+                            m.parse(q, dtlib.rand_ref(r))
+                        except Exception:
+                            pass
     elif kind == 'gen':
         mod = importlib.import_module('rtmon.checkers.' + job['checker'])
         sub = lib.Ctx(pid, 'quick', ctx.seed, job['sub'])
